@@ -68,6 +68,10 @@ def run(chk, w):
                                   "a message can reach the wire buffer (via %s at %s) without a successful stall check of the addressed node on this path" % (f.name, c.loc()))
     chk.floor("wire_append_sites", napp, 2)
 
+    # ---- ORDER: held traffic resumes in per-node submission order
+    from . import c03
+    c03.fifo_rules(chk, w, R, "C04-ORDER", fields=(ns.MSGQ,))
+
     # ---- WALK
     chk.rule("C04-WALK", "the stall check walks the ancestors (lookup key rewritten inside the loop) and registers the waiter before reporting 'stalled'")
     for name in sorted(R.stall_check):
@@ -140,6 +144,35 @@ def run(chk, w):
             chk.violation("C04-WMW", name, ns.STALL, stores[0].loc(), "unexpected writer of the stall flag (values %s)" % sorted(str(v) for v in vals))
     chk.floor("stall_handlers", len(handlers), 1)
 
+    # ---- REC: the handler records every notice (no exit that neither writes the flag nor has compared it with the notice)
+    chk.rule("C04-REC", "every path through the stall-notice handler writes the stall flag (or leaves after comparing the flag: nothing to change)")
+    for name in sorted(handlers):
+        f = P.functions[name]
+        st_ids = {s.id for s in R.stall_stores[name]}
+        ld_ids = {l.id for l in R.stall_loads.get(name, [])}
+        def records(x):
+            if x.id in st_ids:
+                return True
+            if x.op == "br" and "cond" in x.d:
+                # a branch on the current value of the flag ('already in that state')
+                seen = set()
+                def mentions(o, d=0):
+                    i = f.resolve(rules.strip_casts(f, o))
+                    if i is None or d > 4 or i.id in seen:
+                        return False
+                    seen.add(i.id)
+                    if i.id in ld_ids:
+                        return True
+                    return any(mentions(i[k], d + 1) for k in ("a", "b") if k in i.d and isinstance(i[k], dict))
+                return mentions(x["cond"])
+            return False
+        p = rules.exists_path(f, f.blocks[0].insts[0], "exit", records, include_start=True)
+        if p:
+            chk.violation("C04-REC", name, "unrecorded-notice", p[-1].loc() if hasattr(p[-1], "loc") else "%s:%d" % (f.relfile, f.line),
+                          "a stall notice can be dropped: a path through the handler returns without writing the stall flag (%s), so traffic into the stalled subtree continues" % rules.path_text(p))
+        else:
+            chk.ok("C04-REC", 1, {"handler": name, "stores": len(st_ids)})
+
     # ---- WAKE
     chk.rule("C04-WAKE", "clearing a stall drains the waiter list completely and retries every waiter whose node exists, before the mutex is released")
     for name in sorted(handlers):
@@ -152,9 +185,9 @@ def run(chk, w):
             for b in f.blocks:
                 t = b.term
                 if t.op == "br" and "cond" in t.d:
-                    call, pol = cond_call(f, t, True)
-                    if call is not None and call.callee == "g_queue_is_empty" and ns.queue_field_of_call(P, f, call) == ns.STALLQ:
-                        empties.append(t["t"] if pol else t["f"])
+                    for pol in (True, False):
+                        if ns.empty_queue_guard(P, f, t, pol) == ns.STALLQ:
+                            empties.append(t["t"] if pol else t["f"])
             if not empties:
                 chk.violation("C04-WAKE", name, "drain", s.loc(), "the stall is cleared but the waiter list is never tested for emptiness (no drain loop)")
                 continue
@@ -289,7 +322,7 @@ def _branch_on(f, ld):
 
 
 def _gated_here(f, inst, gated):
-    for (br, taken) in rules.branch_conditions(f, inst):
+    for (br, taken) in rules.conditions_at(f, inst):
         call, pol = cond_call(f, br, taken)
         if call is not None and call.callee in gated and pol:
             return True
